@@ -1037,4 +1037,121 @@ def RunCall.toApi (r : RunCall) : ApiCall :=
 /-- `Context(args) if args else Context()` in `pipelinerunner.run`. -/
 def contextOfDict (d : Option Ctx) : Ctx := d.getD []
 
+/-! ## 6. The context parser raises: which handler `Pipeline._run_pipeline` runs
+
+`_run_pipeline` first applies its defaulting rule to `(groups, success_group, failure_group)`, then
+calls `_prepare_context` inside `try … except Exception:`; the handler of that `except` is
+`steps_runner.run_failure_step_group(failure_group)` with the failure group AFTER the defaulting -
+`None` when `--groups` and/or `--success` were given without `--failure`. -/
+
+/-- `--groups`, `--success`, `--failure` as `Pipeline` holds them. -/
+structure GroupArgs where
+  groups : Option (List String) := none
+  success : Option String := none
+  failure : Option String := none
+  deriving Repr, DecidableEq, Inhabited
+
+/-- `bool(name)` -/
+def strTruthy : Option String → Bool
+  | some s => s != ""
+  | none => false
+
+/-- `bool(groups)` -/
+def groupsTruthy : Option (List String) → Bool
+  | some (_ :: _) => true
+  | _ => false
+
+/-- the top of `_run_pipeline`: `if not groups: groups = [default_group]; if not success and not
+    failure: success, failure = default_success_group, default_failure_group`. -/
+def effectiveArgs (g : GroupArgs) : List String × Option String × Option String :=
+  if groupsTruthy g.groups then (g.groups.getD [], g.success, g.failure)
+  else if !strTruthy g.success && !strTruthy g.failure then (["steps"], some "on_success", some "on_failure")
+  else (["steps"], g.success, g.failure)
+
+/-- the group handed to `run_failure_step_group` -/
+def failureHandler (g : GroupArgs) : Option String := (effectiveArgs g).2.2
+
+/-- How `StepsRunner.run_failure_step_group(name)` ends: nothing ran (no name, or the pipeline has no
+    such group), the group ran to its end (an error inside it is logged and swallowed), or a
+    Stop-family instruction inside it (re-raised). -/
+inductive HandlerEnd where
+  | nothingRan | completed | stopStepGroup | stopPipeline | stop
+  deriving Repr, DecidableEq, Inhabited
+
+/-- `body name`: how the group `name` of the pipeline ends when run as failure handler; `none`: the
+    pipeline has no group of that name. -/
+def runHandler (body : String → Option HandlerEnd) : Option String → HandlerEnd
+  | none => .nothingRan
+  | some n => (body n).getD .nothingRan
+
+/-- the groups that ran when the parser failed: the handler, if it names a group of the pipeline -/
+def ranOnParserFailure (body : String → Option HandlerEnd) (g : GroupArgs) : List String :=
+  match failureHandler g with
+  | some n => if (body n).isSome then [n] else []
+  | none => []
+
+/-- the `except Exception:` block around `_prepare_context`: `except StopStepGroup: pass`,
+    `except StopPipeline: return`, a `Stop` goes on up, otherwise `raise` (the parser's error). -/
+def parserFailed (e : Raised) : HandlerEnd → Raised
+  | .stop => .stop
+  | .stopPipeline => .nothing
+  | _ => e
+
+/-- what leaves `load_and_run_pipeline` when the context parser raised `e` -/
+def parserFailure (body : String → Option HandlerEnd) (g : GroupArgs) (e : Raised) : Raised :=
+  parserFailed e (runHandler body (failureHandler g))
+
+/-! ## 7. Parser results are new objects
+
+What a parser returns is `update()`d into the context: the TOP level is copied, the containers
+below it (`argDict`, `argList`) are the very objects the parser built, and steps fill them in
+place. "A function of the argument list" therefore needs every call to build its result anew: a
+result (or part of one) that lives at module level would carry what earlier runs in the process
+wrote into it. `Src` says where a call takes its result from. -/
+
+inductive Src where
+  | fresh               -- built by this call (dict display / comprehension / `json.loads`)
+  | cell (k : Nat)      -- a module-level object, shared by all calls that return it
+  deriving Repr, DecidableEq, Inhabited
+
+/-- One thing that happens in a process. -/
+inductive POp where
+  | call (p : Parser) (args : List String)
+  /-- a step rewrites the result object of the `i`-th call so far in place (through the context) -/
+  | mutate (i : Nat) (v : Val)
+
+/-- `objs`: the result object of every call so far - `(where it lives, its content NOW)`;
+    `shared`: the module-level cells, created on first use with the value the parser computes. -/
+structure ParserProc where
+  objs : List (Src × Option Val) := []
+  shared : List (Nat × Option Val) := []
+
+def sharedGet (sh : List (Nat × Option Val)) (k : Nat) : Option (Option Val) := sh.lookup k
+
+def sharedSet (sh : List (Nat × Option Val)) (k : Nat) (v : Option Val) : List (Nat × Option Val) :=
+  (k, v) :: sh.filter (fun e => e.1 != k)
+
+/-- a sequence of parser calls and in-place mutations in one process; the results of the calls in order -/
+def runPOps (loads : String → Except Exc Val) (src : Parser → List String → Src) :
+    ParserProc → List POp → List (Except Exc (Option Val))
+  | _, [] => []
+  | st, .call p args :: rest =>
+    match parse loads p args with
+    | .error e => .error e :: runPOps loads src st rest
+    | .ok v =>
+      match src p args with
+      | .fresh => .ok v :: runPOps loads src { st with objs := st.objs ++ [(.fresh, v)] } rest
+      | .cell k =>
+        match sharedGet st.shared k with
+        | some cur => .ok cur :: runPOps loads src { st with objs := st.objs ++ [(.cell k, cur)] } rest
+        | none => .ok v :: runPOps loads src { objs := st.objs ++ [(.cell k, v)], shared := sharedSet st.shared k v } rest
+  | st, .mutate i v :: rest =>
+    match st.objs[i]? with
+    | some (.cell k, _) => runPOps loads src { st with shared := sharedSet st.shared k (some v) } rest
+    | _ => runPOps loads src st rest
+
+/-- the parsers of the tree as it is: every `return` builds a new object (tied to the source by
+    `Generated.CliMain.parserReturns`) -/
+def parserSrc : Parser → List String → Src := fun _ _ => .fresh
+
 end Pypyr.Cli
